@@ -24,6 +24,23 @@ pub struct Ctx {
     pub replay: Option<PathBuf>,
     /// scale factor for workload sizes (VERIF_SCALE, default 1.0)
     pub scale: f64,
+    /// running under the Miri interpreter (cfg(miri) or VERIF_MIRI): drivers switch to their
+    /// small, hashing-poor subsets
+    pub miri: bool,
+    /// this process handles the items i with i % shards == shard
+    pub shard: usize,
+    pub shards: usize,
+}
+
+static MIRI_MODE: std::sync::atomic::AtomicBool = std::sync::atomic::AtomicBool::new(false);
+
+/// process-wide copy of `Ctx::miri` for code that has no `Ctx` at hand
+pub fn miri_mode() -> bool {
+    MIRI_MODE.load(Ordering::Relaxed)
+}
+
+pub fn set_miri_mode(on: bool) {
+    MIRI_MODE.store(on, Ordering::Relaxed);
 }
 
 impl Ctx {
@@ -37,6 +54,10 @@ impl Ctx {
     }
     pub fn rng(&self, tag: &str) -> Rng {
         Rng::new(self.seed).fork(tag)
+    }
+    /// is item `i` of a sharded workload handled by this process?
+    pub fn mine(&self, i: usize) -> bool {
+        self.shards <= 1 || i % self.shards == self.shard
     }
 }
 
@@ -94,8 +115,19 @@ pub fn on_big_stack<R: Send>(f: impl FnOnce() -> R + Send) -> R {
     })
 }
 
+/// the 4-leaf test height where the library offers it (feature verif_hooks), else the smallest
+/// production height
+pub fn h2() -> u32 {
+    if cfg!(feature = "hooks") {
+        2
+    } else {
+        5
+    }
+}
+
+/// (height, w) pairs -> levels; in a hooks-off build the 4-leaf height is replaced by H5
 pub fn levels(spec: &[(u32, u32)]) -> Vec<Level> {
-    spec.iter().map(|(h, w)| Level { h: *h, w: *w }).collect()
+    spec.iter().map(|(h, w)| Level { h: if *h == 2 { h2() } else { *h }, w: *w }).collect()
 }
 
 pub const WS: [u32; 4] = [1, 2, 4, 8];
@@ -110,8 +142,12 @@ pub fn message_lengths(ctx: &Ctx) -> Vec<usize> {
     v
 }
 
+/// model configuration mirroring the library build under test: LMS type code 1 (4 leaves) is a
+/// valid type only when the library is built with its verification hooks
 pub fn lcfg(alg: Alg) -> Cfg {
-    Cfg::lib(alg)
+    let mut c = Cfg::lib(alg);
+    c.h2 = cfg!(feature = "hooks");
+    c
 }
 
 pub fn case_json(alg: Alg, levels: &[Level], seed: &[u8], counter: u64, msg: &[u8]) -> J {
